@@ -163,8 +163,15 @@ def check_embedding(report, lib: Lib):
              "full_snippet = lines[start-1 : end] of the lines between the tags")
     ps = m.func("gapic.samplegen_utils.snippet_index.Snippet._parse_snippet_segments")
     src = ast.unparse(ps.node)
-    r4.check("self._full_snippet.start = i + 1" in src and "self._full_snippet.end = i - 1" in src, ps.module.path, ps.node.lineno, "START/END bookkeeping",
-             "the full segment excludes the two tag lines")
+    # the counter is the 1-based line number of the enumerate(...) loop, whatever it is called
+    st_ = [pmatch("_I_ + 1", n.value) for n in ast.walk(ps.node) if isinstance(n, ast.Assign) and ast.unparse(n.targets[0]) == "self._full_snippet.start"]
+    en_ = [pmatch("_I_ - 1", n.value) for n in ast.walk(ps.node) if isinstance(n, ast.Assign) and ast.unparse(n.targets[0]) == "self._full_snippet.end"]
+    st_, en_ = [b for b in st_ if b is not None], [b for b in en_ if b is not None]
+    loops_ = [n for n in ast.walk(ps.node) if isinstance(n, ast.For) and isinstance(n.target, ast.Tuple) and len(n.target.elts) == 2
+              and pmatch("enumerate(self.sample_lines, start=1)", n.iter) is not None]
+    ctr = ast.unparse(loops_[0].target.elts[0]) if len(loops_) == 1 else None
+    r4.check(len(st_) == 1 and len(en_) == 1 and ctr is not None and st_[0]["_I_"] == ctr and en_[0]["_I_"] == ctr, ps.module.path, ps.node.lineno,
+             "START/END bookkeeping", "the full segment excludes the two tag lines")
     gs = m.func("gapic.samplegen_utils.snippet_index.SnippetIndex.get_snippet")
     r4.instance("get_snippet")
     r4.check("sync" in [a.arg for a in gs.node.args.args + gs.node.args.kwonlyargs], gs.module.path, gs.node.lineno, "get_snippet(..., sync)", "lookup distinguishes sync and async samples")
@@ -216,7 +223,7 @@ def check_metadata_and_request(report):
     if sel and req:
         S = (sel[0].target if isinstance(sel[0], ast.AnnAssign) else sel[0].targets[0]).id
         R = req[0].targets[0].id
-        comb = [n for n in ast.walk(fn) if isinstance(n, ast.Assign) and pmatch("_S_ + _R_", n.value, {"_S_": S, "_R_": R}) is not None]
+        comb = [n for n in ast.walk(fn) if isinstance(n, ast.BinOp) and pmatch("_S_ + _R_", n, {"_S_": S, "_R_": R}) is not None]
         r7.check(len(comb) == 1, go.module.path, fn.lineno, "request_fields = selected_oneofs + required_fields", "both groups are populated")
     rec = [c for c in calls(fn) if ast.unparse(c.func) == "generate_request_object"]
     r7.instance("recursion")
